@@ -137,6 +137,18 @@ class Executor:
         if v.ty is PY and type(v.py).__name__ == "Native" and is_ref(ty):
             nm = getattr(v.py.obj, "__name__", None) or type(v.py.obj).__name__
             return V(z3.Const("native.obj." + nm, Ref), ty)
+        if v.ty is TUPLE and isinstance(ty, SeqT) and len(v.py) > 0 and all(x.ty == ty.elem for x in v.py):
+            # a tuple display used where a sequence is expected: a literal sequence term, characterised by a global axiom
+            n = len(v.py)
+            es = ty.elem.sort()
+            key = f"seqlit.{sort_name(es)}.{n}"
+            mk = fn(key, *([es] * n), Ref)
+            if key not in self.model._boxed:
+                self.model._boxed.add(key)
+                xs = [z3.Const(f"sl{i}", es) for i in range(n)]
+                facts = [mk(*xs) != NONE, seq_len(mk(*xs)) == n] + [seq_at(mk(*xs), i, ty.elem) == xs[i] for i in range(n)]
+                self.model.add_axiom(z3.ForAll(xs, z3.And(facts), patterns=[mk(*xs)]))
+            return V(mk(*[x.term for x in v.py]), ty)
         if isinstance(ty, OptT):
             if v.ty is NONE_T:
                 return V(NONE, ty)
